@@ -133,3 +133,177 @@ class Gen:
     def program(self, depth=3, lo=1, hi=5):
         self.defined = []
         return self.seq(depth, lo, hi)
+
+
+class MachineGen:
+    """Programs over the closed core of spec/VyMachine.tla, shaped so that most of
+    them stay inside the written rules (integers / integer lists) and so that
+    lazily evaluated lambda bodies (ƛ ' µ, M F ṡ, v ~ ɖ operands) are PURE
+    (no printing, no ?, no register / global array / variables, no X x)."""
+
+    def __init__(self, rng, ctl=True, names=("a", "b", "c")):
+        self.r = rng
+        self.ctl = ctl
+        self.names = names
+        self.fn_defined = []
+        self.vars_set = []
+
+    # ---- expressions (leave one value) ----
+    def lit(self):
+        return self.r.choice(["0 ", "1 ", "2 ", "3 ", "4 ", "5 ", "10 "])
+
+    def int_expr(self, d, pure=False):
+        r = self.r
+        k = r.random()
+        if d <= 0 or k < 0.3:
+            ch = ["lit", "lit", "n"]
+            if not pure:
+                ch += ["?", "!", "¥", "var"]
+            c = r.choice(ch)
+            if c == "lit":
+                return self.lit()
+            if c == "var":
+                return ("←" + r.choice(self.vars_set) + " ") if self.vars_set else self.lit()
+            return c
+        if k < 0.55:
+            return self.int_expr(d - 1, pure) + self.int_expr(d - 1, pure) + r.choice("+-*=<>∧∨")
+        if k < 0.7:
+            return self.int_expr(d - 1, pure) + r.choice("›‹Nd¬ḃ")
+        if k < 0.9:
+            return self.list_expr(d - 1, pure) + r.choice("∑Lht")
+        return self.int_expr(d - 1, pure) + self.int_expr(d - 1, pure) + "$_"
+
+    def pure_body(self, d):
+        """body of a lazily evaluated lambda: works on its argument (n / implicit input)"""
+        r = self.r
+        k = r.random()
+        if k < 0.35:
+            return r.choice(["›", "‹", "d", "N", "2 *", "1 +", "n+", "3 <", "2 >", "0 =", ":*", "n n*+"])
+        if k < 0.6:
+            return self.int_expr(min(d, 1), pure=True) + r.choice("+-*<>=")
+        if k < 0.75:
+            return "[" + self.int_expr(0, True) + "|" + self.int_expr(0, True) + "]"
+        if k < 0.85:
+            return "ɾ∑"
+        return self.int_expr(min(d, 1), pure=True)
+
+    def list_expr(self, d, pure=False):
+        r = self.r
+        k = r.random()
+        if d <= 0 or k < 0.3:
+            c = r.choice(["range", "range", "lit", "lit", "wrap"])
+            if c == "range":
+                return r.choice(["3 ", "4 ", "5 ", "2 "]) + r.choice("ɾʁ")
+            if c == "wrap":
+                return self.int_expr(0, pure) + "w"
+            n = r.randint(0, 4)
+            return "⟨" + "|".join(self.int_expr(0, pure).strip() for _ in range(n)) + "⟩"
+        if k < 0.4:
+            return self.list_expr(d - 1, pure) + self.list_expr(d - 1, pure) + r.choice(["J", "+", "-", "*", "\""])
+        if k < 0.5:
+            return self.list_expr(d - 1, pure) + self.int_expr(d - 1, pure) + r.choice(["+", "*", "J", "<", "="])
+        if k < 0.6:
+            return self.list_expr(d - 1, pure) + r.choice(["Ṙ", "U", "f", "s", "›", "d", "N"])
+        if k < 0.75:
+            return self.list_expr(d - 1, pure) + r.choice(["ƛ", "'", "µ"]) + self.pure_body(d - 1) + ";"
+        if k < 0.8:
+            return self.list_expr(d - 1, pure) + "λ" + self.pure_body(d - 1) + ";" + r.choice("MF")
+        if k < 0.86:
+            return self.list_expr(d - 1, pure) + r.choice(["ƒ+", "ƒ*", "ɖ+", "ƒ-", "λ2|+;R", "λ2|*;R"])
+        if k < 0.93:
+            return self.list_expr(d - 1, pure) + "v" + r.choice(["›", "d", "N", "‹"])
+        return self.int_expr(d - 1, pure) + "ɾ" + r.choice(["ƛd;", "'2<;", "v›", "~›"])
+
+    def expr(self, d, pure=False):
+        return self.list_expr(d, pure) if self.r.random() < 0.4 else self.int_expr(d, pure)
+
+    # ---- statements ----
+    def stmt(self, d, in_loop=False, in_lambda=False):
+        r = self.r
+        k = r.random()
+        if d <= 0 or k < 0.30:
+            c = r.choice(["print", "print", "keep", "set", "reg", "garr", "drop", "push", "push", "dup", "stackop"])
+            e = self.expr(1)
+            if c == "print":
+                return e + r.choice([",", ",", "₴", "…"])
+            if c == "keep":
+                return e
+            if c == "set":
+                v = r.choice(self.names)
+                self.vars_set.append(v)
+                return e + "→" + v + " "
+            if c == "reg":
+                return e + "£"
+            if c == "garr":
+                return e + r.choice(["⅛", "⅛¾", "⅛¼"])
+            if c == "drop":
+                return e + "_"
+            if c == "dup":
+                return e + r.choice([":", "D", ":+", "D++"])
+            if c == "stackop":
+                return r.choice(["W", "^", "!", "$", "\"", "W∑"])
+            return e
+        if k < 0.42:
+            nb = r.choice([1, 2, 2, 3, 4])
+            return self.int_expr(1) + "[" + "|".join(self.block(d - 1, in_loop, in_lambda, 0, 2) for _ in range(nb)) + "]"
+        if k < 0.54:
+            v = r.choice(["", "", r.choice(self.names) + "|"])
+            if v:
+                self.vars_set.append(v[0])
+            return self.expr(1) + "(" + v + self.block(d - 1, True, in_lambda, 0, 3) + ")"
+        if k < 0.60:
+            # bounded while: counter on the stack
+            return r.choice(["3 ", "2 ", "4 "]) + "{:|" + self.block(d - 1, True, in_lambda, 0, 2, keep=True) + "‹}_"
+        if k < 0.70:
+            ar = r.choice(["", "1|", "2|", "0|", "3|"])
+            return self.expr(1) + self.expr(0) + "λ" + ar + self.block(d - 1, False, True, 0, 3) + ";†"
+        if k < 0.78:
+            if self.fn_defined and r.random() < 0.6:
+                return self.expr(0) + self.expr(0) + "@" + r.choice(self.fn_defined) + ";"
+            if in_lambda or in_loop:
+                return self.expr(1) + ","
+            name = r.choice(["f", "g", "h"])
+            params = "".join(":" + r.choice(["1", "2", "0", "p", "q"]) for _ in range(r.randint(0, 2)))
+            body = self.block(d - 1, False, True, 0, 3)
+            if "p" in params and r.random() < 0.7:
+                body = "←p " + body
+            self.fn_defined.append(name)
+            return "@" + name + params + "|" + body + ";"
+        if k < 0.84:
+            n = r.randint(0, 3)
+            return "⟨" + "|".join(self.item(d - 1) for _ in range(n)) + "⟩"
+        if k < 0.94:
+            m = r.choice(["&", "&", "₌", "₍", "ß", "~", "⁽", "‡", "≬", "v", "ƒ", "ɖ"])
+            if m == "&":
+                return self.expr(0) + "&" + r.choice(["›", "d", "+", "N"])
+            if m in "₌₍":
+                return self.int_expr(0) + self.int_expr(0) + m + r.choice("+-*›d") + r.choice("+-*‹N")
+            if m == "ß":
+                return self.int_expr(0) + self.int_expr(1) + "ß" + r.choice(["›", "d", ",", "λ1+;"])
+            if m == "~":
+                return self.int_expr(0) + self.int_expr(0) + "~" + r.choice("+-*<")
+            if m == "⁽":
+                return self.int_expr(0) + "⁽" + r.choice("›dN") + "†"
+            if m == "‡":
+                return self.int_expr(0) + "‡" + r.choice("›dN") + r.choice("›dN") + "†"
+            if m == "≬":
+                return self.int_expr(0) + "≬" + r.choice("›dN") + r.choice("›dN") + r.choice("›dN") + "†"
+            if m == "v":
+                return self.list_expr(0) + self.int_expr(0) + "v" + r.choice("+-*")
+            return self.list_expr(1) + m + r.choice("+-*")
+        if self.ctl and (in_loop or in_lambda):
+            return r.choice(["X", "x"]) if in_loop else "X"
+        return self.expr(1)
+
+    def item(self, d):
+        return self.expr(min(d, 1)).strip() if self.r.random() < 0.8 else self.r.choice([":", "+", "_", "n", "!"])
+
+    def block(self, d, in_loop, in_lambda, lo, hi, keep=False):
+        n = self.r.randint(lo, hi)
+        s = "".join(self.stmt(d, in_loop, in_lambda) for _ in range(n))
+        return s
+
+    def program(self, depth=3, lo=1, hi=4):
+        self.fn_defined = []
+        self.vars_set = []
+        return self.block(depth, False, False, lo, hi)
